@@ -58,8 +58,15 @@ def _tame(spec):
 def _stat_case(draw):
     """data-dependent statistics and wide determinants: places where a float32 formula can cancel or under/overflow although every
     input and parameter is moderate"""
-    kind = draw(st.sampled_from(["bn_train", "bn_train", "actnorm_init", "wide_linear"]))
+    kind = draw(st.sampled_from(["bn_train", "bn_train", "actnorm_init", "wide_linear", "flow_ctx"]))
     c = {"stat": kind, "seed": draw(st.integers(0, 10 ** 6))}
+    if kind == "flow_ctx":
+        c["F"] = draw(st.integers(2, 4))
+        c["tr"] = draw(st.sampled_from(["maf", "coupling"]))
+        c["embed"] = draw(st.booleans())
+        c["base"] = draw(st.sampled_from(["standard", "conditional"]))
+        c["n"] = draw(st.integers(1, 4))
+        return c
     if kind == "wide_linear":
         c["D"] = draw(st.sampled_from([16, 48, 64, 96, 112, 128, 144, 200]))
         c["lin"] = draw(st.sampled_from(["naive", "naive", "lu", "qr", "svd"]))
@@ -113,7 +120,22 @@ def case_strategy(tier):
     return _case()
 
 
-def _perturbed(twin, X, C, gen, inverse):
+def _abs_scale(spec):
+    """largest box coordinate any spline of the spec normalises against: (x - left) / (right - left) rounds absolutely at that scale,
+    however small |x| itself is"""
+    if isinstance(spec, dict):
+        v = 0.0
+        if spec.get("box"):
+            v = max(abs(float(t)) for t in spec["box"])
+        if isinstance(spec.get("tb"), (int, float)) and spec.get("tails", "linear"):
+            v = max(v, abs(float(spec["tb"])))
+        return max([v] + [_abs_scale(x) for x in spec.values() if isinstance(x, (dict, list))])
+    if isinstance(spec, list):
+        return max([0.0] + [_abs_scale(x) for x in spec])
+    return 0.0
+
+
+def _perturbed(twin, X, C, gen, inverse, abs_scale=0.0):
     t2 = copy.deepcopy(twin)
     rel = 2.0 ** -23
     with torch.no_grad():
@@ -122,7 +144,7 @@ def _perturbed(twin, X, C, gen, inverse):
         for n, b in t2.named_buffers():
             if b.dtype.is_floating_point and not n.endswith("_log_z"):
                 b.mul_(1 + rel * (torch.rand(b.shape, generator=gen, dtype=torch.float64) * 2 - 1))
-        Xp = X * (1 + rel * (torch.rand(X.shape, generator=gen, dtype=torch.float64) * 2 - 1))
+        Xp = X + rel * (X.abs() + abs_scale) * (torch.rand(X.shape, generator=gen, dtype=torch.float64) * 2 - 1)
         Cp = C * (1 + rel * (torch.rand(C.shape, generator=gen, dtype=torch.float64) * 2 - 1)) if C is not None else None
         return (t2.inverse(Xp, Cp) if inverse else t2(Xp, Cp))
 
@@ -181,6 +203,41 @@ def _run_stat(case, res):
     g = torch.Generator().manual_seed(case["seed"] + 1)
     rel = 2.0 ** -23
     res.labels += ["stat:" + kind]
+    if kind == "flow_ctx":
+        # a conditional flow through its public entry points (log_prob, transform_to_noise) with a float64 context for the twin
+        from nflows import distributions as dist
+        from nflows.flows import Flow
+        from nflows.nn import nets
+        F, cw = case["F"], 2
+        if case["tr"] == "maf":
+            tr = T.MaskedAffineAutoregressiveTransform(F, 8, context_features=cw, num_blocks=1)
+        else:
+            tr = T.AffineCouplingTransform([i % 2 for i in range(F)], lambda i, o: nets.ResidualNet(i, o, hidden_features=8, context_features=cw, num_blocks=1))
+        base = dist.ConditionalDiagonalNormal([F], context_encoder=torch.nn.Linear(cw, 2 * F)) if case["base"] == "conditional" else dist.StandardNormal([F])
+        emb = torch.nn.Linear(3, cw) if case["embed"] else None
+        flow = Flow(tr, base, embedding_net=emb)
+        flow.eval()
+        twin = copy.deepcopy(flow).double()
+        X = torch.randn(case["n"], F, generator=g)
+        C = torch.randn(case["n"], 3 if emb is not None else cw, generator=g)
+        site = "Flow"
+        res.nontrivial = True
+        for nm in ("log_prob", "transform_to_noise"):
+            with torch.no_grad():
+                try:
+                    r64 = getattr(twin, nm)(X.double(), C.double())
+                except Exception as e:
+                    from vf.core import nflows_site
+                    res.fail("float64_twin_raises", nflows_site(e) or site, "%s on the .double() twin with float64 inputs and context: %s: %s" % (
+                        nm, type(e).__name__, str(e)[:200]), exc=type(e).__name__)
+                    return res
+                r32 = getattr(flow, nm)(X, C)
+                Xp = X.double() * (1 + rel * (torch.rand(X.shape, generator=g, dtype=torch.float64) * 2 - 1))
+                Cp = C.double() * (1 + rel * (torch.rand(C.shape, generator=g, dtype=torch.float64) * 2 - 1))
+                kap = float((getattr(twin, nm)(Xp, Cp) - r64).abs().max())
+            if not _cmp(res, site, nm, r32, r64, kap * 8, direction="forward", fam="-"):
+                return res
+        return res
     if kind == "wide_linear":
         D = case["D"]
         cls = {"naive": T.NaiveLinear, "lu": T.LULinear, "qr": T.QRLinear, "svd": T.SVDLinear}[case["lin"]]
@@ -212,8 +269,8 @@ def _run_stat(case, res):
                 Xp = Xd * (1 + rel * (torch.rand(Xd.shape, generator=g, dtype=torch.float64) * 2 - 1))
                 po, pl = t2.inverse(Xp) if inverse else t2(Xp)
                 ko, kl = max(ko, float((po - o64).abs().max())), max(kl, float((pl - l64).abs().max()))
-            if max(ko, kl) > 1e-2:
-                res.inconclusive += 1     # ill-conditioned draw
+            if max(ko, kl) > 2e-4:
+                res.inconclusive += 1     # ill-conditioned draw (a 2^-23 perturbation already moves the result by > 2e-4: cond ~ 1e3 and more)
                 return res
             outs = []
             for rep in range(2 if case["cache"] else 1):     # second call answers from the cache
@@ -227,7 +284,8 @@ def _run_stat(case, res):
                     return res
         res.nontrivial = True
         for o32, l32 in outs:
-            if not _cmp(res, site, "outputs (%s)" % case["direction"], o32, o64, ko * np.sqrt(D), direction=case["direction"], fam="-"):
+            # (outputs of a 100-200-dimensional solve: the 4-draw probe sees less of the conditioning than for the scalar log-det)
+            if not _cmp(res, site, "outputs (%s)" % case["direction"], o32, o64, ko * np.sqrt(D), K=1024.0, direction=case["direction"], fam="-"):
                 return res
             if not _cmp(res, site, "logabsdet (%s)" % case["direction"], l32, l64, kl * np.sqrt(D), direction=case["direction"], fam="-"):
                 return res
@@ -325,6 +383,11 @@ def _stage_near_kink(b, spec, twin, Xd, Cd):
                     kinks = [float(v) for v in pb.specials]
                     if pb.knots is not None:
                         kinks += [float(v) for v in pb.knots().reshape(-1)]
+                    if zoo.FAM_OF.get(ps["t"]) == "lin" and "box" not in ps:
+                        # piecewise-linear layers (also coupling / autoregressive ones): equally spaced knots, whatever the parameters
+                        lo_, hi_ = (-float(ps["tb"]), float(ps["tb"])) if ps.get("tails") or ps["t"].startswith("fn_") and ps.get("tb") else (0.0, 1.0)
+                        K_ = int(ps.get("bins", 1))
+                        kinks += [lo_ + (hi_ - lo_) * k / K_ for k in range(K_ + 1)]
                     if ps["t"] == "leakyrelu":
                         kinks.append(0.0)
                     if ps["t"] == "logtanh":
@@ -359,6 +422,10 @@ def run_case(case):
         # no special points: exactly at a knot / tail bound the float32 and the float64 evaluation legitimately take different
         # branches (0.3 as float32 is > 0.3 as double) and the derivative may jump there; C09/C17 probe those points in float32
         X, special = zoo.gen_inputs(b, n, case["seed"] + 1, 0.0, 1.0, dom=case["dom"])
+        if case["spec"]["t"] == "logit" or (case["spec"]["t"] == "inverse" and case["spec"]["of"]["t"] == "sigmoid"):
+            # an exact 0 (a black pixel): the boundary clamp is the same declared constant in both precisions
+            X.reshape(-1)[0] = 0.0
+            res.labels.append("logit_at_zero")
         if case["dom"] == "R":
             X = X * [1.0, 3.0, 8.0, 8.0][case["seed"] % 4]
         X = X.clamp(-10, 10)
@@ -459,7 +526,7 @@ def run_case(case):
         for _ in range(8):
             try:
                 with torch.no_grad():
-                    po, pl = _perturbed(twin, Xd, Cd, gen, inverse)
+                    po, pl = _perturbed(twin, Xd, Cd, gen, inverse, _abs_scale(case["spec"]) if case["spec"]["t"].startswith(("fn_", "cdf_")) else 0.0)
             except Exception:
                 res.inconclusive += 1
                 return res
